@@ -93,6 +93,32 @@ def observing_listeners(cls_name, prop, value):
     return problems
 
 
+def construction(cls_name):
+    """Values given at construction are stored the way an assignment stores them (compared
+    with a twin built with defaults and then assigned); defaults are not shared."""
+    import desper
+    import desper.math as dm
+    cls = getattr(desper, cls_name)
+    out = []
+    for prop in ('position', 'rotation', 'scale'):
+        for v in values_for(cls_name, prop):
+            if v == SAME:
+                continue
+            a = cls(**{prop: v})
+            b = cls()
+            setattr(b, prop, v)
+            for q in ('position', 'rotation', 'scale'):
+                ra, rb = getattr(a, q), getattr(b, q)
+                if ra != rb:
+                    out.append((prop, v, '%s(%s=%r).%s reads %r, but %r after assigning the same value'
+                                % (cls_name, prop, v, q, ra, rb)))
+    x, y = cls(), cls()
+    for q in ('position', 'scale'):
+        if getattr(x, q) is getattr(y, q) and not isinstance(getattr(x, q), tuple):
+            out.append((q, None, 'default %s shared between two instances' % q))
+    return out
+
+
 def values_for(cls_name, prop):
     import desper.math as dm
     if cls_name == 'Transform2D' and prop == 'rotation':
@@ -131,6 +157,14 @@ def main():
                                                   ['set', prop, repr(v)]] * (2 if twice else 1)},
                               'observed': probs[0], 'signature': 'C20:%s.%s' % (cls_name, prop)}))
             return
+    if req['mode'] == 'search' or not ob.get('witness'):
+        for cls_name in ('Transform2D', 'Transform3D'):
+            for prop, v, msg in construction(cls_name):
+                print(json.dumps({'status': 'reproduced',
+                                  'history': {'scenario': 'construction', 'class': cls_name,
+                                              'property': prop, 'value': repr(v)},
+                                  'observed': msg, 'signature': 'C20:%s.__init__' % cls_name}))
+                return
     if req['mode'] == 'search':
         import desper.math as dm
         for cls_name in ('Transform2D', 'Transform3D'):
